@@ -1523,6 +1523,30 @@ pub fn build(full_name: &str, level: u8) -> Option<Scenario> {
                     c.beats = l as u8;
                 });
             }
+            if n.contains("-samectx") {
+                // followers 2 and 3 each forwarded a read carrying the same context bytes; both
+                // requests are pending at the leader when exploration starts; one more read
+                s.prefix = vec![
+                    Action::Timeout(1),
+                    Action::Settle,
+                    Action::ReadIndex(2),
+                    Action::Settle0(2),
+                    Action::Deliver(2, 1),
+                    Action::Settle0(1),
+                    Action::ReadIndex(3),
+                    Action::Settle0(3),
+                    Action::Deliver(3, 1),
+                    Action::Settle0(1),
+                ];
+                s.clients_at = vec![2];
+                s.timeoutable = vec![];
+                s.crashable = vec![];
+                s.fault_types = vec![];
+                s.caps = caps(|c| {
+                    c.reads = 1;
+                    c.beats = (l as u8).min(1);
+                });
+            }
             if n.contains("-regain") {
                 // leader 1 had a read pending (its heartbeats were lost) when node 2 took over;
                 // node 1 then won leadership back and committed in its new term: the read
@@ -1801,6 +1825,9 @@ pub fn build(full_name: &str, level: u8) -> Option<Scenario> {
         for nd in s.nodes.iter_mut() {
             nd.max_apply_unpersisted = u64::MAX;
         }
+    }
+    if name.contains("-samectx") {
+        s.same_read_ctx = true;
     }
     if name.contains("-camp") {
         // the application may call RawNode::campaign() once, on any node that may time out
